@@ -110,6 +110,11 @@ class Run:
                 json.dump({"property": self.pid, "key": key, "seed": self.seed, "tier": self.tier,
                            "witness": witness}, f, indent=1, default=str)
         self.violations.append((key, witness, path))
+        stop = int(os.environ.get("VERIF_STOP_AFTER", "0") or 0)
+        if stop and len(self.violations) >= stop and self.replay is None:
+            # development switch (seeded-change matrix): the verdict is settled, do not finish the workload
+            self.finish({"evaluations": 0, "distinct_nontrivial": 0, "samples": [],
+                         "rule": "stopped after %d violations (VERIF_STOP_AFTER); nothing else is reported" % stop})
         return True
 
     # ---- finish -----------------------------------------------------------------------
